@@ -23,7 +23,10 @@ func c15Setup(threshold int) *Module {
 
 func resetC15() {
 	atomic.StoreInt32(microTasks, 0)
-	microTaskSchedulerStarted.UnSet()
+	if rt.Symbolic() {
+		// natively the package's test init() has already started the scheduler
+		microTaskSchedulerStarted.UnSet()
+	}
 	shutdownFlag.UnSet()
 	// drain clearance queues and the finished signal of earlier use
 	for len(mediumPriorityClearance) > 0 {
